@@ -399,6 +399,136 @@ static std::string handle_ts(const std::vector<std::string> &t)
       vh::Exact k(a);
       o = trace_api::TraceState::IsValidValue(nostd::string_view(k.data(), k.size())) ? "1" : "0";
     }
+    else if (op.size() == 2 && op[0] == "emp" && idx(op[1], i))
+    {
+      o = states[i]->Empty() ? "1" : "0";
+    }
+    else if (op.size() == 3 && op[0] == "ents" && idx(op[1], i))
+    {
+      // GetAllEntries with a callback that declines on its n-th call (0 = never)
+      char *e  = nullptr;
+      size_t n = strtoul(op[2].c_str(), &e, 10), calls = 0;
+      if (*e == 0 && !op[2].empty())
+      {
+        std::vector<std::string> seen;
+        bool r = states[i]->GetAllEntries([&](nostd::string_view k, nostd::string_view v) {
+          seen.push_back(vh::to_hex(k.data(), k.size()) + ":" + vh::to_hex(v.data(), v.size()));
+          return ++calls != n;
+        });
+        o = std::string("r=") + (r ? "1" : "0") + " [" + vh::join(seen, ",") + "]";
+      }
+    }
+    else if (op.size() == 5 && op[0] == "tok" && vh::from_hex(op[1], a) && vh::from_hex(op[2], b) && a.size() == 1 &&
+             b.size() == 1 && (op[3] == "0" || op[3] == "1"))
+    {
+      // the tokenizer itself, with explicit options: NumTokens, every next(), then reset() and every next() again
+      std::string h;
+      if (vh::from_hex(op[4], h))
+      {
+        vh::Exact x(h);
+        opentelemetry::common::KeyValueStringTokenizerOptions opts;
+        opts.member_separator     = a[0];
+        opts.key_value_separator  = b[0];
+        opts.ignore_empty_members = op[3] == "1";
+        opentelemetry::common::KeyValueStringTokenizer tk(nostd::string_view(x.data(), x.size()), opts);
+        auto pass = [&]() {
+          std::vector<std::string> toks;
+          bool valid;
+          nostd::string_view k, v;
+          size_t guard = 0;
+          while (tk.next(valid, k, v) && guard++ < 100000)
+            toks.push_back(valid ? vh::to_hex(k.data(), k.size()) + ":" + vh::to_hex(v.data(), v.size()) : std::string("!"));
+          return vh::join(toks, ",");
+        };
+        size_t cnt        = tk.NumTokens();
+        std::string first = pass();
+        tk.reset();
+        std::string again = pass();
+        o = "n=" + std::to_string(cnt) + " t=[" + first + "]" + (again == first ? "" : " RESET-DIFF[" + again + "]");
+      }
+    }
+    else if (op.size() >= 2 && op.size() % 2 == 0 && op[0] == "kvp")
+    {
+      // KeyValueProperties(capacity) directly: AddEntry beyond the capacity is dropped; owned copies; GetValue;
+      // Entry copy / assignment / SetValue; the constructor from a key-value iterable when everything fits
+      char *e    = nullptr;
+      size_t cap = strtoul(op[1].c_str(), &e, 10);
+      std::vector<std::pair<std::string, std::string>> kv;
+      bool ok = *e == 0 && !op[1].empty() && cap <= 64;
+      for (size_t j = 2; ok && j + 1 < op.size(); j += 2)
+      {
+        ok = vh::from_hex(op[j], a) && vh::from_hex(op[j + 1], b);
+        kv.emplace_back(a, b);
+      }
+      if (ok)
+      {
+        namespace common = opentelemetry::common;
+        common::KeyValueProperties props(cap);
+        for (auto &p : kv)
+        {
+          vh::Exact k(p.first), v(p.second);
+          props.AddEntry(nostd::string_view(k.data(), k.size()), nostd::string_view(v.data(), v.size()));
+        }
+        auto list = [](const common::KeyValueProperties &q) {
+          std::vector<std::string> seen;
+          q.GetAllEntries([&](nostd::string_view k, nostd::string_view v) {
+            seen.push_back(vh::to_hex(k.data(), k.size()) + ":" + vh::to_hex(v.data(), v.size()));
+            return true;
+          });
+          return "[" + vh::join(seen, ",") + "]";
+        };
+        o = "s=" + std::to_string(props.Size()) + " " + list(props);
+        // GetValue: the first stored entry with that key (keys / values are stored NUL-terminated: compare up to a NUL)
+        for (size_t j = 0; j < kv.size(); j++)
+        {
+          std::string want;
+          bool found = false;
+          for (size_t q = 0; q < kv.size() && q < cap && !found; q++)
+            if (std::string(kv[q].first.c_str()) == std::string(kv[j].first.c_str()))
+            {
+              found = true;
+              want  = kv[q].second.c_str();
+            }
+          if (kv[j].first.find('\0') != std::string::npos) continue;
+          vh::Exact k(kv[j].first);
+          std::string val = "stale";
+          bool got        = props.GetValue(nostd::string_view(k.data(), k.size()), val);
+          if (got != found || (got && val != want)) o += " GETVALUE-DIFF" + std::to_string(j);
+        }
+        // Entry: copies are deep, SetValue touches only its own entry
+        if (!kv.empty())
+        {
+          common::KeyValueProperties::Entry e1(kv[0].first.c_str(), kv[0].second.c_str());
+          common::KeyValueProperties::Entry e2(e1);
+          common::KeyValueProperties::Entry e3;
+          e3 = e1;
+          e2.SetValue("changed-2");
+          e3.SetValue("changed-3");
+          if (e1.GetKey() != e2.GetKey() || e1.GetKey() != e3.GetKey() || e1.GetValue() != nostd::string_view(kv[0].second.c_str()) ||
+              e2.GetValue() != "changed-2" || e3.GetValue() != "changed-3" || e1.GetKey().data() == e2.GetKey().data() ||
+              e1.GetKey().data() == e3.GetKey().data())
+            o += " ENTRY-COPY-DIFF";
+        }
+        // from an iterable of pairs (capacity = its size): the same list as AddEntry one by one
+        if (cap == kv.size())
+        {
+          std::vector<std::unique_ptr<vh::Exact>> keep;
+          std::vector<std::pair<nostd::string_view, nostd::string_view>> views;
+          for (auto &p : kv)
+          {
+            keep.emplace_back(new vh::Exact(p.first));
+            auto *k = keep.back().get();
+            keep.emplace_back(new vh::Exact(p.second));
+            auto *v = keep.back().get();
+            views.emplace_back(nostd::string_view(k->data(), k->size()), nostd::string_view(v->data(), v->size()));
+          }
+          std::unique_ptr<common::KeyValueProperties> q(new common::KeyValueProperties(views));
+          keep.clear();
+          views.clear();
+          if (q->Size() != props.Size() || list(*q) != list(props)) o += " ITERABLE-CTOR-DIFF" + list(*q);
+        }
+      }
+    }
     // "the original object is never modified": every earlier state must still print as it did
     for (size_t j = 0; j < states.size(); j++)
       if (show_entries(*states[j]) != shown[j]) o += " MUTATED" + std::to_string(j);
